@@ -146,7 +146,7 @@ Record cache_case := {
   cc_accepted : bool }.
 
 Definition dummy_req : request :=
-  {| rq_host := ""; rq_method := ""; rq_path := ""; rq_headers := []; rq_ip := "" |}.
+  {| rq_host := ""; rq_method := ""; rq_path := ""; rq_rawpath := ""; rq_headers := []; rq_ip := "" |}.
 Definition dummy_sv : server := {| sv_filter := None; sv_rules := []; sv_backends := [] |}.
 
 Definition mem_key (k : key) (l : list key) : bool := existsb (key_eqb k) l.
